@@ -4,7 +4,8 @@ Import ListNotations.
 
 (* Conventions: all theorems quantify over ALL client programs [progs], callback bodies [bds], id counts and
    ALL schedules (reachable = closure of [step c t] over every thread choice). Assumptions of the
-   model: sequentially consistent atomics, strong CAS, wait(old) enabled iff word <> old. *)
+   model: sequentially consistent atomics, strong CAS; id->wait(old) returns at once if the word differs from old, otherwise
+   the thread is blocked until a LATER notify_all() on the id (ghost notify count Model.ntf) - see the NOTIFY / WAIT section. *)
 
 (* bit layout of the id word re-extracted from thread.cc / common.h *)
 Theorem params_ok_now : Proofs.params_ok = true.
